@@ -406,6 +406,61 @@ def r3_producer_consumer(chk, rule='C02.R3'):
     chk.floor(rule, 60, 'tag/arity pairs x two generators')
 
 
+def r3b_prepdata(chk):
+    """R3 models prepData; this rule pins the model to the code"""
+    model = chk.model
+    chk.doc('C02.R3b', 'both prepData(pdata): walk pdata in order; a non-tuple is kept as it is; a 1-tuple is replaced '
+                       'by its element; any other tuple t is replaced by handlersTable[t[0]](self, prepData(t[1:]))')
+    for rel, cname in (('pysmi/codegen/symtable.py', 'SymtableCodeGen'),
+                       ('pysmi/codegen/intermediate.py', 'IntermediateCodeGen')):
+        ci = model.cls(rel, cname)
+        o, fn = ci.find_method('prepData')
+        chk.subject(fn, '%s.prepData' % cname)
+        p = fn.args.args[1].arg
+        loops = [n for n in fn.body if isinstance(n, ast.For)]
+        ok = len(loops) == 1 and _name(loops[0].iter) == p and isinstance(loops[0].target, ast.Name)
+        chk.ob('C02.R3b', '%s.prepData/loop' % cname, ok, where(ci.mod, fn), 'one loop over the argument in order')
+        if not ok:
+            continue
+        el = loops[0].target.id
+        leaves = []   # (conditions, appended expression)
+
+        def walk(stmts, conds):
+            for s in stmts:
+                if isinstance(s, ast.If):
+                    walk(s.body, conds + [(norm(s.test), True)])
+                    walk(s.orelse, conds + [(norm(s.test), False)])
+                elif isinstance(s, ast.Expr) and isinstance(s.value, ast.Call) and \
+                        isinstance(s.value.func, ast.Attribute) and s.value.func.attr == 'append':
+                    leaves.append((tuple(conds), norm(s.value.func.value), s.value.args[0]))
+                else:
+                    leaves.append((tuple(conds), None, s))
+        walk(loops[0].body, [])
+        it, ln = 'isinstance(%s, tuple)' % el, 'len(%s) == 1' % el
+        got = dict((c, a) for c, lst, a in leaves)
+        acc = set(lst for c, lst, a in leaves)
+        want_keys = set([((it, False),), ((it, True), (ln, True)), ((it, True), (ln, False))])
+        ok = set(got) == want_keys and len(acc) == 1 and None not in acc
+        chk.ob('C02.R3b', '%s.prepData/cases' % cname, ok, where(ci.mod, fn), 'cases: %s' % sorted(got))
+        if ok:
+            chk.ob('C02.R3b', '%s.prepData/non-tuple-kept' % cname, norm(got[((it, False),)]) == el, where(ci.mod, fn),
+                   norm(got[((it, False),)]))
+            chk.ob('C02.R3b', '%s.prepData/1-tuple-unwrapped' % cname, norm(got[((it, True), (ln, True))]) == '%s[0]' % el,
+                   where(ci.mod, fn), norm(got[((it, True), (ln, True))]))
+            d = got[((it, True), (ln, False))]
+            okd = isinstance(d, ast.Call) and norm(d.func) == 'self.handlersTable[%s[0]]' % el and len(d.args) >= 2 and \
+                norm(d.args[0]) == 'self' and isinstance(d.args[1], ast.Call) and \
+                norm(d.args[1].func) == 'self.prepData' and norm(d.args[1].args[0]) == '%s[1:]' % el
+            chk.ob('C02.R3b', '%s.prepData/tagged-dispatch' % cname, okd, where(ci.mod, fn), norm(d)[:100])
+            rets = [x for x in walk_no_nested(fn) if isinstance(x, ast.Return)]
+            chk.ob('C02.R3b', '%s.prepData/returns-list' % cname, len(rets) == 1 and norm(rets[0].value) == list(acc)[0],
+                   where(ci.mod, fn), '')
+
+
+def _name(e):
+    return e.id if isinstance(e, ast.Name) else None
+
+
 def r4_token_values(chk):
     model = chk.model
     lm = lexer_model(chk)
@@ -550,5 +605,5 @@ def r8_number_tokens(chk):
         chk.ob('C02.R8', o.key, o.ok, o.where, o.detail)
 
 
-RULES = [r1_nothing_dropped, r2_list_idiom, r2b_operand_shapes, r3_producer_consumer, r4_token_values, r5_layout, r6_entry_point,
+RULES = [r1_nothing_dropped, r2_list_idiom, r2b_operand_shapes, r3b_prepdata, r3_producer_consumer, r4_token_values, r5_layout, r6_entry_point,
          r7_history_independence, r8_number_tokens]
